@@ -92,6 +92,73 @@ def check_function(c, net, inputs, fn):
     return None
 
 
+def precedence_rule(chk, lark):
+    """Operator precedence and associativity from the expanded rule table (no parsing involved).
+
+    level chain: nonterminals linked by unit productions from `expression` down to `primary`;
+    a binary production  X -> L TOKEN R  hangs off level P (P -> X): left-associative iff L == P,
+    and R must be the next tighter level (P's unit fall-through)."""
+    term = {t.name: t.pattern.value for t in lark.terminals}
+    prods = {}
+    for r in lark.rules:
+        prods.setdefault(str(r.origin.name), []).append([(str(s.name), s.is_term) for s in r.expansion])
+    if "expression" not in prods:
+        chk.note("C02.S.precedence: no `expression` rule; structural precedence rule abstains")
+        return
+    binary = {}  # gate rule -> list of (L, tokenvalue, R)
+    for name, alts in prods.items():
+        for alt in alts:
+            if len(alt) == 3 and not alt[0][1] and alt[1][1] and not alt[2][1]:
+                binary.setdefault(name, []).append((alt[0][0], term.get(alt[1][0], alt[1][0]), alt[2][0]))
+    # depth of level nonterminals: follow unit productions whose target is not itself a gate/ternary rule
+    depth = {"expression": 0}
+    order = ["expression"]
+    cur = "expression"
+    fall = {}
+    for _ in range(20):
+        if any(alt and alt[0][1] for alt in prods.get(cur, [])):
+            break  # a level with a terminal-first alternative (IDENTIFIER, "(") is the tightest one
+        units = [alt[0][0] for alt in prods.get(cur, []) if len(alt) == 1 and not alt[0][1]]
+        nxt = [u for u in units if u not in binary and u in prods and any(len(a) == 1 or len(a) == 3 for a in prods[u]) and u not in depth and not any(len(a) == 5 for a in prods[u])]
+        if not nxt:
+            break
+        fall[cur] = nxt[0]
+        cur = nxt[0]
+        depth[cur] = len(order)
+        order.append(cur)
+    chk.ob("C02.S.precedence.level-chain", "grammar::expression level chain", len(order) >= 6, file=GR, func="grammar", fact={"levels_loosest_to_tightest": order},
+           expect="expression > condition > or > xor > and > unary > primary linked by unit productions")
+    want_rank = {"|": 0, "^": 1, "~^": 1, "^~": 1, "&": 2}
+    seen_ops = {}
+    for gate, alts in binary.items():
+        parents = [p for p, alts2 in prods.items() if any(len(a) == 1 and a[0][0] == gate for a in alts2)]
+        for (L, tok, R) in alts:
+            if tok not in want_rank:
+                continue
+            P = parents[0] if parents else None
+            seen_ops[tok] = depth.get(P)
+            chk.ob("C02.S.precedence.left-associative", f"grammar::{tok}", P is not None and L == P, file=GR, func=gate, fact={"rule": f"{gate}: {L} '{tok}' {R}", "level": P},
+                   expect="left operand is the level itself (left recursion => left associativity)")
+            chk.ob("C02.S.precedence.right-operand-tighter", f"grammar::{tok}", P is not None and R == fall.get(P), file=GR, func=gate, fact={"rule": f"{gate}: {L} '{tok}' {R}", "next_tighter_level": fall.get(P)},
+                   expect="right operand is the next tighter level")
+    for a, b in (("|", "^"), ("^", "&"), ("|", "&"), ("~^", "&"), ("^~", "&"), ("|", "~^"), ("|", "^~")):
+        da, db = seen_ops.get(a), seen_ops.get(b)
+        chk.ob("C02.S.precedence.order", f"grammar::'{a}' looser than '{b}'", da is not None and db is not None and da < db, file=GR, func="grammar", fact={"level_depths": {k: v for k, v in seen_ops.items()}},
+               expect="Verilog-2001: & binds tighter than ^ ~^ ^~, which bind tighter than |")
+    chk.ob("C02.S.precedence.order", "grammar::^ ~^ ^~ share a level", len({seen_ops.get(x) for x in ("^", "~^", "^~")}) == 1 and seen_ops.get("^") is not None, file=GR, func="grammar", fact={"level_depths": seen_ops}, expect="same level")
+    # unary operators apply to a primary; parentheses re-enter at or above the loosest binary level
+    un = [alt for alt in prods.get("not_gate", []) if len(alt) == 2 and alt[0][1]]
+    chk.ob("C02.S.precedence.unary", "grammar::~ ! apply to a primary", bool(un) and all(a[1][0] == order[-1] for a in un) and {term.get(a[0][0]) for a in un} == {"~", "!"}, file=GR, func="not_gate",
+           fact={"alternatives": [[term.get(x[0], x[0]) if x[1] else x[0] for x in a] for a in un]}, expect="not_gate: ('!'|'~') primary")
+    par = [alt for alt in prods.get(order[-1], []) if len(alt) == 3 and alt[0][1] and term.get(alt[0][0]) == "("]
+    loosest_binary = min([d for d in seen_ops.values() if d is not None] or [99])
+    chk.ob("C02.S.precedence.parentheses", "grammar::( ) re-enter at the loosest level", bool(par) and all(depth.get(a[1][0], 99) <= loosest_binary for a in par), file=GR, func=order[-1],
+           fact={"parenthesised": [a[1][0] for a in par], "depths": depth}, expect="'(' <level at or above |> ')'")
+    tern = [alt for alt in prods.get("ternary", []) if len(alt) == 5]
+    chk.ob("C02.S.precedence.conditional", "grammar::?: is the loosest operator", bool(tern) and all(term.get(a[1][0]) == "?" and term.get(a[3][0]) == ":" and depth.get(a[0][0], -1) >= 2 for a in tern)
+           and any(len(a) == 1 and a[0][0] == "ternary" for a in prods.get("condition", [])), file=GR, func="ternary", fact={"alternatives": [[x[0] for x in a] for a in tern]}, expect="condition: or | ternary;  ternary: or '?' or ':' or")
+
+
 def run(chk):
     repo = chk.repo
     chk.explanation = ("verilog.lark loaded as data with lark; the transformer callbacks of parsing/verilog.py evaluated from source by the checker's evaluator bottom-up over the parse trees of model netlists "
@@ -113,6 +180,9 @@ def run(chk):
     for r in need_cb:
         chk.ob("C02.G.rule-has-callback", r, r in have and r in rule_names, file=FILE, func=f"_VerilogCircuitGraphTransformer.{r}", fact={"rule_in_grammar": r in rule_names, "callback": r in have},
                expect="rule present in the grammar with a transformer callback")
+
+    # ---- S: precedence / associativity read off the grammar's rule table ----
+    precedence_rule(chk, lark)
 
     # ---- E: expression semantics ------------------------------------------
     n_parse = 0
